@@ -9,27 +9,40 @@ from pv.canon import Exc, T, Val, outcome
 ID = "C05"
 COQ_REQUIRE = "C05.Run"
 RULE = ("process tables (pid, ppid, start ticks) written into a fake /proc: random forests of 1-40 processes with injected "
-        "self-loops, 2- and 3-cycles, unlisted parents, children older than the caller, equal start ticks, processes removed "
-        "between ppid_map() and Process(pid); caller alive / PID recycled (other start ticks) / PID gone, create_time() cached "
-        "or not, lowest-PID cache empty / fresh / stale; plus every table over a small PID universe (exhaustive part). Each case "
-        "is one call of children(), children(recursive=True), parent() or parents(). Non-trivial = table with >= 2 processes; "
-        "distinct = distinct canonical case hash.")
-TRUSTED = ["correspondence harness props/C05.py + pv/fakeproc (fake /proc tree, os.listdir order patch, ppid_map wrapper that removes "
-           "directories after the snapshot, itimer guard turning a non-terminating call into Timeout)",
+        "self-loops, 2- and 3-cycles, unlisted parents, children older than the caller, equal start ticks; caller alive / PID "
+        "recycled (other start ticks) / PID gone, create_time() cached or not, lowest-PID cache empty / fresh / stale; processes "
+        "vanishing at a chosen point of the call (directory removed just before the k-th open of that process's stat file, every "
+        "k enumerated for every victim on small tables); multi-step histories (process_iter() fully consumed so that psutil._pmap is "
+        "warm, create_time() read on some yielded objects, then exit / PID reuse with an older or younger start / reparenting / "
+        "new process, then the call; the demanded answer is computed from the FINAL table only); plus every table over a small PID "
+        "universe (exhaustive part). Each case is one call of children(), children(recursive=True), parent() or parents(); every "
+        "returned object is compared by identity (pid, start ticks). Non-trivial = table with >= 2 processes; distinct = distinct "
+        "canonical case hash.")
+TRUSTED = ["correspondence harness props/C05.py + pv/fakeproc (fake /proc tree, os.listdir order patch, builtins.open wrapper that removes "
+           "a directory before the k-th open of its stat file, ppid_map wrapper, itimer guard turning a non-terminating call into Timeout)",
            "float layer: create_time() = ticks/CLK + boot time is compared on ticks in the model (strictly monotone for a constant boot time)"]
-ASSUMPTIONS = ["the table is static during one call except for the PIDs removed right after the ppid_map() snapshot",
-               "the caller object is fresh (_gone/_pid_reused False); sticky flags belong to C01",
+ASSUMPTIONS = ["the table is static during one call except for the victims removed at the stated stat-open index",
+               "the caller object is fresh or yielded by process_iter() (_gone/_pid_reused False); sticky flags belong to C01",
                "boot time constant between the caller's cached create_time() and the children's (clock steps belong to C02)",
-               "a directory lists each PID once (wf_table); PIDs and parent PIDs within pid_t range"]
-EXHAUSTIVE = {"quick": "all 36 tables over PIDs {5,7} x ppid in {5,7,unlisted 3} x start in {10,20}, every caller, all four calls",
-              "thorough": "all 1728 tables over PIDs {4,6,9} x ppid in {4,6,9,unlisted 2} x start in {10,20,30}, every caller, all four calls"}
+               "a directory lists each PID once (wf_table); PIDs and parent PIDs within pid_t range; the table lists at least one process",
+               "the model merges the vanish points that give the same answer (children(): before ppid_map's read / before Process(pid) / "
+               "before child.create_time(); parents(): before Process(ppid) / before parent.create_time(), resp. any point after the "
+               "ancestor was appended); the harness exercises each point separately against that answer"]
+EXHAUSTIVE = {"quick": "all 36 tables over PIDs {5,7} x ppid in {5,7,unlisted 3} x start in {10,20}, every caller, all four calls; all 36 tables "
+                       "over root 2 + PIDs {5,7} x ppid in {2,5,7} x start in {10,20}, every caller, every other process as victim, every "
+                       "stat-open index 0..3 (children), 0..2 (parent), 0..6 (parents)",
+              "thorough": "all 1728 tables over PIDs {4,6,9} x ppid in {4,6,9,unlisted 2} x start in {10,20,30}, every caller, all four calls; "
+                          "the same vanish-point enumeration as quick"}
 CASE_TIMEOUT = 30
 SHARD = 120
 
 # model parameters: the three repairs found with this check are in /repo (6afb079 skip_self, 3959fba parent_reuse, e202d3b
 # parents_seen).  All True = the code as it is now.  C05_OLD=skip_self,... evaluates the model of the code WITHOUT a repair
 # (only useful to replay the old defects against a reverted copy:  C05_OLD=skip_self VERIF_REPO=<copy> ./vcheck C05 quick).
-FIXES = {"skip_self": True, "parents_seen": True, "parent_reuse": True}
+FIXES = {"skip_self": True, "parents_seen": True, "parent_reuse": True,
+         "parents_nsp": False}   # proposed repair notes/fixes/C05-parents-vanished-ancestor.diff: NOT in /repo
+for _k in filter(None, os.environ.get("C05_NEW", "").split(",")):
+    FIXES[_k] = True
 for _k in filter(None, os.environ.get("C05_OLD", "").split(",")):
     FIXES[_k] = False
 
@@ -107,13 +120,162 @@ def _random_table(rng):
     return tab, motif
 
 
-def _mk(op, tab, pid, ident, cached, cache, gone, cls):
-    return {"kind": op, "op": op, "cls": cls, "tab": [list(e) for e in tab], "pid": pid, "ident": ident,
-            "cached": bool(cached), "cache": cache, "gone": sorted(gone)}
+def _mk(op, tab, pid, ident, cached, cache, gone, cls, vanish=(), hist=None):
+    c = {"kind": op, "op": op, "cls": cls, "tab": [list(e) for e in tab], "pid": pid, "ident": ident,
+         "cached": bool(cached), "cache": cache, "gone": sorted(gone)}
+    if vanish:
+        c["vanish"] = [list(v) for v in vanish]     # [victim pid, k]: directory removed just before the k-th open of its stat
+    if hist:
+        c["hist"] = hist
+    return c
+
+
+MAXK = {"children": 3, "children_rec": 3, "parent": 2, "parents": 6}
+
+
+def vanish_sets(case):
+    """Model view of the vanish points: (gone, goneb).  See ASSUMPTIONS / coq/C05/Model.v."""
+    op = case["op"]
+    gone = set(case.get("gone", []))
+    goneb = set()
+    for v, k in case.get("vanish", []):
+        if op in ("children", "children_rec"):
+            if k <= 2:
+                gone.add(v)
+        else:
+            if k <= 1:
+                gone.add(v)
+            elif k <= 4 and op == "parents":
+                goneb.add(v)
+    return sorted(gone), sorted(goneb - gone)
+
+
+def _family(tab, pid, up):
+    """descendants (up=False) or ancestors (up=True) of pid by raw parent links, bounded."""
+    d = {e[0]: e for e in tab}
+    out = []
+    if up:
+        cur, n = pid, 0
+        while cur in d and n < len(tab):
+            cur = d[cur][1]
+            if cur in d and cur != pid and cur not in out:
+                out.append(cur)
+            n += 1
+    else:
+        front = [pid]
+        while front:
+            nxt = [e[0] for e in tab if e[1] in front and e[0] != pid and e[0] not in out]
+            out.extend(nxt)
+            front = nxt
+    return out
+
+
+def _history_case(rng):
+    """process_iter() consumed on tab0, create_time() read on some objects, table change, one call."""
+    n = rng.choice([3, 4, 5, 6, 8, 12])
+    pids = rng.sample(range(2, 300), n - 1)
+    tab0 = [[1, 0, 1]]
+    for p in pids:
+        j = rng.randrange(len(tab0))
+        tab0.append([p, tab0[j][0], tab0[j][2] + rng.choice([0, 1, 5, 40])])
+    kids = {}
+    for e in tab0:
+        kids.setdefault(e[1], []).append(e[0])
+    callers = [p for p in kids if p != 0]
+    pid = rng.choice(callers)
+    d0 = {e[0]: e for e in tab0}
+    tab = [list(e) for e in tab0]
+    d = {e[0]: e for e in tab}
+    op = rng.choice(OPS)
+    child = rng.choice(kids[pid])
+    mot = rng.choice(["reuse_older", "reuse_older", "reuse_younger", "reparent", "exit", "new", "caller_recycled",
+                      "parent_reused", "grandchild_reuse_older"])
+    if mot == "reuse_older":
+        d[child][2] = max(0, d0[pid][2] - rng.choice([1, 3, 20]))
+    elif mot == "reuse_younger":
+        d[child][2] = d0[child][2] + rng.choice([1, 7])
+        if rng.random() < 0.5:
+            d[child][1] = rng.choice([e[0] for e in tab0])
+    elif mot == "reparent":
+        d[child][1] = 1
+    elif mot == "exit":
+        tab = [e for e in tab if e[0] != child]
+    elif mot == "new":
+        tab.append([rng.choice([x for x in range(300, 330)]), pid, d0[pid][2] + rng.choice([0, 3])])
+    elif mot == "caller_recycled":
+        d[pid][2] = d0[pid][2] + rng.choice([-1, 1, 9]) if d0[pid][2] > 0 else d0[pid][2] + 1
+    elif mot == "parent_reused":
+        pp = d0[pid][1]
+        if pp in d:
+            if rng.random() < 0.5:
+                d[pp][2] = d0[pid][2] + rng.choice([1, 10])
+            else:
+                tab = [e for e in tab if e[0] != pp]
+    elif mot == "grandchild_reuse_older":
+        gk = [g for g in kids.get(child, [])]
+        if gk:
+            d[rng.choice(gk)][2] = max(0, d0[pid][2] - 1)
+        else:
+            d[child][2] = max(0, d0[pid][2] - 1)
+    ct = sorted(p for p in d0 if rng.random() < 0.6 or p == child and rng.random() < 0.8)
+    from_iter = rng.random() < 0.6
+    cached = (from_iter and pid in ct) or rng.random() < 0.3
+    cache = None
+    if op in ("parent", "parents") and tab and rng.random() < 0.5:
+        cache = min(e[0] for e in tab)
+    if rng.random() < 0.3:
+        rng.shuffle(tab)
+    hist = {"tab0": tab0, "ct": ct, "from_iter": from_iter}
+    return _mk(op, tab, pid, d0[pid][2], cached, cache, [], "hist-%s-%s" % (op, mot), hist=hist)
+
+
+def _vanish_case(rng):
+    tab, motif = _random_table(rng)
+    if len(tab) < 2:
+        tab = [[1, 0, 1], [5, 1, 10], [8, 5, 20]]
+    d = {e[0]: e for e in tab}
+    op = rng.choice(OPS)
+    up = op in ("parent", "parents")
+    cands = []
+    for e in tab:
+        fam = _family(tab, e[0], up)
+        if fam:
+            cands.append((e[0], fam))
+    if cands:
+        pid, fam = rng.choice(cands)
+    else:
+        pid = tab[0][0]
+        fam = [e[0] for e in tab if e[0] != pid]
+    others = [e[0] for e in tab if e[0] != pid]
+    victims = []
+    for _ in range(rng.choice([1, 1, 2])):
+        v = rng.choice(fam) if fam and rng.random() < 0.8 else rng.choice(others)
+        if v not in [x[0] for x in victims]:
+            victims.append([v, rng.randint(0, MAXK[op])])
+    cache = None
+    if up and rng.random() < 0.5:
+        cache = min(d)
+    return _mk(op, tab, pid, d[pid][2], rng.random() < 0.5, cache, [], "vanish-%s%s" % (op, "-" + "+".join(motif) if motif else ""),
+               vanish=victims)
+
+
+def _vanish_exhaustive():
+    import itertools
+    out = []
+    P, S = [5, 7], [10, 20]
+    per = [(pp, st) for pp in [2] + P for st in S]
+    for combo in itertools.product(per, repeat=2):
+        tab = [[2, 0, 5]] + [[p, pp, st] for p, (pp, st) in zip(P, combo)]
+        for pid, _, st in tab[1:]:
+            victim = [x for x in P if x != pid][0]
+            for op in OPS:
+                for k in range(MAXK[op] + 1):
+                    out.append(_mk(op, tab, pid, st, False, None, [], "exh-vanish-" + op, vanish=[[victim, k]]))
+    return out
 
 
 def gen_cases(rng, tier):
-    n_rand = {"quick": 900, "thorough": 20000, "search": 2500}[tier]
+    n_rand = {"quick": 900, "thorough": 14000, "search": 2500}[tier]
     max_hang = {"quick": 40, "thorough": 400, "search": 40}[tier]
     cases = []
     hang = 0
@@ -130,6 +292,14 @@ def gen_cases(rng, tier):
             for pid, _, st in tab:
                 for op in OPS:
                     cases.append(_mk(op, tab, pid, st, False, None, [], "exh-" + op))
+        cases.extend(_vanish_exhaustive())
+    # ---- multi-step histories (warm process_iter() cache) and vanish points
+    n_hist = {"quick": 300, "thorough": 4000, "search": 800}[tier]
+    n_van = {"quick": 250, "thorough": 4000, "search": 600}[tier]
+    for _ in range(n_hist):
+        cases.append(_history_case(rng))
+    for _ in range(n_van):
+        cases.append(_vanish_case(rng))
     # ---- random
     for _ in range(n_rand):
         tab, motif = _random_table(rng)
@@ -148,8 +318,8 @@ def gen_cases(rng, tier):
                 ident = d[pid][2] + 1
         if state == "gone":
             tab = [e for e in tab if e[0] != pid]
-            if not tab and rng.random() < 0.7:
-                tab = [[pid + 1, pid, ident]]
+            if not tab:                     # a process table is never empty (the process running psutil is listed)
+                tab = [[pid + 1, pid if rng.random() < 0.7 else 0, ident]]
         cached = rng.random() < 0.5
         cache = None
         gone = []
@@ -180,17 +350,19 @@ def gen_cases(rng, tier):
 
 # ------------------------------------------------------------------ Coq terms
 def _fx():
-    return "(Build_fixes %s %s %s)" % (G.bo(FIXES["skip_self"]), G.bo(FIXES["parents_seen"]), G.bo(FIXES["parent_reuse"]))
+    return "(mk_fixes %s %s %s %s)" % (G.bo(FIXES["skip_self"]), G.bo(FIXES["parents_seen"]), G.bo(FIXES["parent_reuse"]),
+                                       G.bo(FIXES["parents_nsp"]))
 
 
 def coq_term(case):
     tab = G.lst(["(%s,%s,%s)" % (G.z(p), G.z(pp), G.z(s)) for p, pp, s in case["tab"]])
     obj = "(Build_pobj %s %s %s)" % (G.z(case["pid"]), G.z(case["ident"]),
                                      G.opt(case["ident"] if case["cached"] else None, G.z))
-    return "run_%s %s %s %s %s %s" % (case["op"], _fx(), tab, G.zs(case["gone"]), G.opt(case["cache"], G.z), obj)
+    gone, goneb = vanish_sets(case)
+    return "run_%s %s %s %s %s %s %s" % (case["op"], _fx(), tab, G.zs(gone), G.zs(goneb), G.opt(case["cache"], G.z), obj)
 
 
-TAGS = ["alive", "recycled", "self_desc", "self_parent", "chain_cyclic", "stale", "is_lowest"]
+TAGS = ["alive", "recycled", "self_desc", "self_parent", "chain_cyclic", "stale", "is_lowest", "ancestor_vanishes"]
 
 
 def coq_struct(case, raw):
@@ -210,6 +382,8 @@ def finding_key(case, coq):
             return "children-yields-caller"
     if op == "parents" and tg["alive"] and tg["chain_cyclic"] and not FIXES["parents_seen"]:
         return "parents-nonterminating"
+    if op == "parents" and tg["alive"] and tg["ancestor_vanishes"] and not FIXES["parents_nsp"]:
+        return "parents-ancestor-vanishes"
     if op in ("parent", "parents") and tg["alive"] and tg["stale"]:
         return "parent-stale-lowest-pid-cache"
     if op in ("parent", "parents") and tg["recycled"] and tg["is_lowest"] and not FIXES["parent_reuse"]:
@@ -221,16 +395,28 @@ def _is_val_list(x):
     return isinstance(x, dict) and x.get("t") == "Val" and isinstance(x["a"][0], list)
 
 
+def _is_exc(x, name=None):
+    return isinstance(x, dict) and x.get("t") == "Exc" and (name is None or x["a"][0].get("t") == name)
+
+
 def judge(case, coq, impl):
     from pv.core import Verdict
     model, spec = coq["model"], coq["spec"]
     if isinstance(model, dict) and model.get("t") == "OutOfModel":
         return Verdict("skip", "table outside the model")
     op = case["op"]
+    tg = coq.get("tags") or {}
     ok = True
     why = ""
-    if spec is None:
-        pass                                        # caller's PID absent: nothing demanded
+    # whatever the table and whatever vanishes meanwhile: the only exception these calls may let out is
+    # NoSuchProcess for the CALLER's pid, and only when the caller is gone or recycled
+    if _is_exc(impl) and not (_is_exc(impl, "NoSuchProcess") and not tg.get("alive", False)):
+        ok, why = False, "%s() of %d raises %s%s" % (
+            op, case["pid"], impl["a"][0].get("t"),
+            " (NoSuchProcess for another PID than the caller's)" if _is_exc(impl, "NoSuchProcessOther") else
+            " although the caller is alive" if _is_exc(impl, "NoSuchProcess") else "")
+    elif spec is None:
+        pass                                        # caller's PID absent: a value or NoSuchProcess(caller), checked above
     elif isinstance(spec, dict) and spec.get("t") == "Cyclic":
         if isinstance(impl, dict) and impl.get("t") == "Timeout":
             ok, why = False, "parents() does not terminate (parent chain is cyclic)"
@@ -238,13 +424,17 @@ def judge(case, coq, impl):
         if not _is_val_list(impl):
             ok, why = False, "%s(): %r, demanded %r" % (op, impl, spec)
         else:
-            got, want = impl["a"][0], spec["a"][0]
-            if len(set(got)) != len(got):
+            got = [tuple(x) for x in impl["a"][0]]
+            want = [tuple(x) for x in spec["a"][0]]
+            if len(set(x[0] for x in got)) != len(got):
                 ok, why = False, "a process is returned twice: %r" % (got,)
             elif sorted(got) != sorted(want):
                 extra = sorted(set(got) - set(want))
-                ok, why = False, "%s() of %d returns %r, demanded set %r%s" % (
-                    op, case["pid"], got, sorted(want), " (contains the caller itself)" if case["pid"] in extra else "")
+                stale = [x for x in extra if x[0] in [w[0] for w in want]]
+                ok, why = False, "%s() of %d returns (pid, start ticks) %r, demanded set %r%s%s" % (
+                    op, case["pid"], got, sorted(want),
+                    " (contains the caller itself)" if case["pid"] in [x[0] for x in extra] else "",
+                    " (object with a stale identity: %r)" % (stale,) if stale else "")
     elif impl != spec:
         ok, why = False, "%s() of %d: %r, demanded %r" % (op, case["pid"], impl, spec)
     if not ok:
@@ -266,29 +456,18 @@ def _write_stat(root, pid, ppid, start):
 
 
 def impl_run(case, coq, env):
+    import builtins
     import psutil
     from psutil import _pslinux
     from pv import fakeproc
     root = os.path.join(env["work"], "proc")
-    fp = fakeproc.FakeProc(root)          # wipes and recreates the tree, writes /proc/stat (btime)
-    fakeproc.attach(psutil, root)
+    fakeproc.FakeProc(root)               # wipes and recreates the tree, writes /proc/stat (btime)
+    fakeproc.attach(psutil, root)         # also clears psutil._pmap / _pids_reused
     clk = _pslinux.CLOCK_TICKS
     tab = case["tab"]
     pid, ident = case["pid"], case["ident"]
     order = [e[0] for e in tab]
-    for p, pp, st in tab:
-        _write_stat(root, p, pp, st)
-    # ---- the caller object, created while its PID belonged to the process started at tick `ident`
-    cur = {e[0]: e for e in tab}.get(pid)
-    _write_stat(root, pid, cur[1] if cur else 0, ident)
-    obj = psutil.Process(pid)
-    if case["cached"]:
-        obj.create_time()
-    if cur is None:
-        shutil.rmtree(os.path.join(root, str(pid)))
-    else:
-        _write_stat(root, pid, cur[1], cur[2])
-    # ---- patches: listing order, vanishing after the ppid_map() snapshot, lowest-PID cache
+    hist = case.get("hist")
     real_listdir = os.listdir
     broot = os.fsencode(root)
 
@@ -296,10 +475,51 @@ def impl_run(case, coq, env):
         r = real_listdir(path, *a)
         if path == root or path == broot:
             have = {os.fsdecode(x) for x in r}
-            out = [str(p) for p in order if str(p) in have] + sorted(x for x in have if not x.isdigit())
+            out = [str(p) for p in order if str(p) in have]
+            out += sorted((x for x in have if x.isdigit() and x not in out), key=int) + sorted(x for x in have if not x.isdigit())
             assert len(out) == len(have), (out, have)
             return [os.fsencode(x) for x in out] if isinstance(path, bytes) else out
         return r
+
+    def set_table(t):
+        keep = {str(e[0]) for e in t}
+        for name in real_listdir(root):
+            if name.isdigit() and name not in keep:
+                shutil.rmtree(os.path.join(root, name))
+        for p, pp, st in t:
+            _write_stat(root, p, pp, st)
+
+    os.listdir = fake_listdir
+    try:
+        if hist:
+            # ---- history: warm process_iter() cache, memoised create_time() on some objects, then the table changes
+            set_table(hist["tab0"])
+            objs = {p.pid: p for p in psutil.process_iter()}
+            assert sorted(objs) == sorted(e[0] for e in hist["tab0"]), (sorted(objs), hist["tab0"])
+            for p in hist["ct"]:
+                objs[p].create_time()
+            obj = objs[pid] if hist["from_iter"] else psutil.Process(pid)
+            assert int(round(obj._ident[1] * clk)) == ident
+            if case["cached"]:
+                obj.create_time()
+            set_table(tab)
+        else:
+            set_table(tab)
+            # ---- the caller object, created while its PID belonged to the process started at tick `ident`
+            cur = {e[0]: e for e in tab}.get(pid)
+            _write_stat(root, pid, cur[1] if cur else 0, ident)
+            obj = psutil.Process(pid)
+            if case["cached"]:
+                obj.create_time()
+            if cur is None:
+                shutil.rmtree(os.path.join(root, str(pid)))
+            else:
+                _write_stat(root, pid, cur[1], cur[2])
+    except BaseException:
+        os.listdir = real_listdir
+        raise
+    # ---- patches: vanish points (k-th open of the victim's stat file), legacy vanish after the ppid_map() snapshot,
+    #      lowest-PID cache
     real_ppid_map = psutil._ppid_map
 
     def vanishing_ppid_map():
@@ -307,6 +527,16 @@ def impl_run(case, coq, env):
         for g in case["gone"]:
             shutil.rmtree(os.path.join(root, str(g)), ignore_errors=True)
         return m
+    victims = {os.path.join(root, str(v), "stat"): [k, 0] for v, k in case.get("vanish", [])}
+    real_open = builtins.open
+
+    def counting_open(file, *a, **kw):
+        ent = victims.get(file) if isinstance(file, str) else None
+        if ent is not None:
+            if ent[1] == ent[0]:
+                shutil.rmtree(os.path.dirname(file), ignore_errors=True)
+            ent[1] += 1
+        return real_open(file, *a, **kw)
     old_lowest = psutil._LOWEST_PID
     old_handler = signal.getsignal(signal.SIGALRM)
     model = coq.get("model") if isinstance(coq, dict) else None
@@ -318,44 +548,61 @@ def impl_run(case, coq, env):
     def on_alarm(signum, frame):
         raise _Hang()
 
-    def conv_children(r):
-        assert all(isinstance(c, psutil.Process) for c in r)
-        return [c.pid for c in r]
+    def ident_of(p):
+        assert isinstance(p, psutil.Process)
+        return [p.pid, int(round(p._ident[1] * clk))]
+
+    def conv_list(r):
+        return [ident_of(c) for c in r]
 
     def conv_parent(r):
-        if r is None:
-            return None
-        assert isinstance(r, psutil.Process)
-        return [r.pid, int(round(r._ident[1] * clk))]
+        return None if r is None else ident_of(r)
 
     op = case["op"]
     call, conv = {
-        "children": (lambda: obj.children(), conv_children),
-        "children_rec": (lambda: obj.children(recursive=True), conv_children),
+        "children": (lambda: obj.children(), conv_list),
+        "children_rec": (lambda: obj.children(recursive=True), conv_list),
         "parent": (lambda: obj.parent(), conv_parent),
-        "parents": (lambda: obj.parents(), conv_children),
+        "parents": (lambda: obj.parents(), conv_list),
     }[op]
-    os.listdir = fake_listdir
+
+    def run():
+        try:
+            return call()
+        except psutil.NoSuchProcess as e:
+            if e.pid != pid:
+                raise _OtherNSP() from None
+            raise
+
     psutil._ppid_map = vanishing_ppid_map
     psutil._LOWEST_PID = case["cache"]
     signal.signal(signal.SIGALRM, on_alarm)
+    if victims:
+        builtins.open = counting_open
     try:
         try:
             signal.setitimer(signal.ITIMER_REAL, HANG_S if expect_hang else SLOW_S)
             try:
-                res = outcome(call, conv)      # _Hang is a BaseException: outcome() maps it to Exc("_Hang")
+                res = outcome(run, conv)      # _Hang is a BaseException: outcome() maps it to Exc("_Hang")
             finally:
                 signal.setitimer(signal.ITIMER_REAL, 0)
         except _Hang:
             res = Exc("_Hang")
         if res == Exc("_Hang"):
             res = T("Timeout")
+        if res == Exc("_OtherNSP"):
+            res = Exc("NoSuchProcessOther")
     finally:
+        builtins.open = real_open
         signal.signal(signal.SIGALRM, old_handler)
         os.listdir = real_listdir
         psutil._ppid_map = real_ppid_map
         psutil._LOWEST_PID = old_lowest
     return res
+
+
+class _OtherNSP(Exception):
+    """NoSuchProcess raised for another PID than the caller's."""
 
 
 MANIFEST = {
@@ -366,10 +613,12 @@ MANIFEST = {
             "returns every process at most once, never the caller, and exactly the processes reachable through parent links; parent() = the "
             "process named by ppid() unless unlisted or younger (None for the root; hypothesis: lowest-PID cache fresh); parents() terminates "
             "within |table|+1 steps on ANY table, is the chain of parent() whenever that chain ends, and the chain ends on every table without "
-            "cyclic links; every call raises NoSuchProcess for a recycled caller. Refuted statements kept for the code before the three repairs "
+            "cyclic links; every call raises NoSuchProcess for a recycled caller; a parent that vanishes before its create_time() was read is no parent; parents() terminates whatever vanishes meanwhile. Refuted statements kept for the code before the three repairs "
             "this check led to (caller returned by children() on a ppid cycle; parents() not terminating on a self-loop; recycled lowest PID "
-            "got None) and for the known finding (stale lowest-PID cache). The model is tied to the code by running both on random and "
-            "exhaustively enumerated tables written into a fake /proc; the harness oracle for descendants is proved equal to the inductive set.",
+            "got None) and for the known findings (stale lowest-PID cache; parents() of a live caller raises NoSuchProcess when an ancestor vanishes "
+            "after it was appended -- with the proposed repair proved never to raise). The model is tied to the code by running both on random and "
+            "exhaustively enumerated tables written into a fake /proc, on multi-step histories with a warm process_iter() cache (answer demanded "
+            "from the final table, objects compared by (pid, start ticks)) and with a process removed before each k-th open of its stat file; the harness oracle for descendants is proved equal to the inductive set.",
     "note": "Trusted: Coq kernel + vm_compute; hand-written model coq/C05/Model.v (tied by the correspondence run only); harness (fake /proc, "
             "os.listdir order patch, ppid_map wrapper, itimer guard); CPython floats/dicts/sets. Proof covers the model, sampling covers model-vs-code.",
 }
